@@ -29,6 +29,7 @@ class FunctionReport:
         self.called = set()
         self.inlined = set()
         self.used_abstract = set()
+        self.abstracted_text = {}
         self.cut_hit = False
         self.wall_s = 0.0
         self.exits = {'normal': 0, 'raise': 0}
@@ -63,6 +64,7 @@ def setup_path(world, contract, ex, ctx, prefix):
     p.havoc_n = 0
     p.heap_epoch = 0
     p.seq_pos = {}
+    p.abstracted_text = {}
     p.last_sorted = None
     p.pure_axioms = set()
     p.cut_hit = False
@@ -249,6 +251,7 @@ def run_path(world, contract, ex, ctx, prefix, report):
     report.called |= p.called
     report.inlined |= p.inlined
     report.used_abstract |= p.used_abstract
+    report.abstracted_text.update(p.abstracted_text)
     report.cut_hit = report.cut_hit or p.cut_hit
     return p.new_prefixes
 
